@@ -486,6 +486,12 @@ where
         let mut shift = -&jac_inv * &derivative;
         guess += &shift;
 
+        // Already converged (e.g. a solution at rest): a further Broyden update would
+        // divide by the vanishing change of the residual.
+        if shift.norm() <= self.tolerance.real() {
+            return Ok(guess);
+        }
+
         while n < 1000 {
             let derivative_last = derivative;
             derivative = g(
